@@ -112,6 +112,14 @@ func (ex *Exec) intrinsic(g *G, f *Frame, fn *ssa.Function, args []Value, call *
 		return ex.fpow(args[0].(Flt), args[1].(Flt)), false
 	case "math.Sqrt":
 		return ex.fsqrt(args[0].(Flt)), false
+	case "math.IsNaN", "math.IsInf":
+		// real mode has no NaN / Inf except the unspecified x/0 terms: those may be either
+		f := args[0].(Flt)
+		if f.T != nil && f.T.poison {
+			ex.fresh++
+			return Bool{T: ex.TS.Var(fmt.Sprintf("isnan!%d", ex.fresh), SBool)}, false
+		}
+		return Bool{C: false}, false
 	case "math.Round":
 		return ex.fround(args[0].(Flt), false), false
 	case "math.Floor":
